@@ -11,45 +11,77 @@ structure D where
   mode : Mode := .single (init none)
   /-- an op other than `kind` was seen in this case -/
   started : Bool := false
-
-def showOpt : Option Nat → String
-  | none => "-"
-  | some v => toString v
+  /-- the action is an arena handle (`Action`, `MultiAction`, `ServerAction`, …): it can be disposed -/
+  arena : Bool := false
+  /-- `leptos_server` wrapper: the output type is `Result<u32, ServerFnError>`; values ≥ 1000 are
+  `Err(ServerError("<v>"))` and print as `E<v>` -/
+  server : Bool := false
 
 def showB (b : Bool) : String := if b then "1" else "0"
+
+def showVal (server : Bool) : Option Nat → String
+  | none => "-"
+  | some v => if server && v ≥ 1000 then s!"E{v}" else toString v
+
+def showOpt : Option Nat → String := showVal false
 
 def verdict : Option String → String
   | none => "ok"
   | some c => s!"fail {c}"
 
-def obsSingle (s : State) : String :=
-  s!"p={showB s.pending} ver={s.version} val={showOpt s.value} in={showOpt s.input} rl={(readyList s).length} ## {verdict (oracle s)}"
+def obsSingle (server : Bool) (s : State) : String :=
+  s!"p={showB s.pending} ver={s.version} val={showVal server s.value} in={showOpt s.input} rl={(readyList s).length} ## {verdict (oracle s)}"
 
-def showSub (r : M.Sub) : String :=
-  s!"{showOpt r.input}:{showOpt r.value}:{showB r.pending}:{showB r.canceled}"
+def showSub (server : Bool) (r : M.Sub) : String :=
+  s!"{showOpt r.input}:{showVal server r.value}:{showB r.pending}:{showB r.canceled}"
 
-def obsMulti (s : M.State) : String :=
-  s!"ver={s.version} subs=[{";".intercalate (s.subs.map showSub)}] rl={(M.readyList s).length} ## {verdict (M.oracle s)}"
+def obsMulti (server : Bool) (s : M.State) : String :=
+  s!"ver={s.version} subs=[{";".intercalate (s.subs.map (showSub server))}] rl={(M.readyList s).length} ## {verdict (M.oracle s)}"
 
-def singleKinds : List String :=
-  ["arc", "arc-local", "arc-unsync", "arena", "arena-local", "arena-unsync"]
+/-- (name, arena?) of the plain single-action kinds -/
+def singleKinds : List (String × Bool) :=
+  [("arc", false), ("arc-local", false), ("arc-unsync", false),
+   ("arena", true), ("arena-local", true), ("arena-unsync", true), ("arena-unsync-local", true)]
 
-def stepSingle (s : State) (w : List String) : Option State :=
-  match w with
-  | ["dispatch", i] => i.toNat?.map fun i => step s (.dispatch i)
-  | ["abort", k] => k.toNat?.map fun k => step s (.abort k)
-  | ["drop", k] => k.toNat?.map fun k => step s (.dropHandle k)
-  | ["ready", k, v] =>
-    match k.toNat?, v.toNat? with
-    | some k, some v => some (step s (.ready k v))
-    | _, _ => none
-  | ["poll", j] => j.toNat?.map fun j => step s (.poll j)
-  | ["idle"] => some (runIdle (s.tasks.length + 1) s)
-  | ["clear"] => some (step s .clear)
-  | ["obs"] => some s
+/-- (name, arena?, does the `ServerActionError` context name this server function's path?) -/
+def serverKinds : List (String × Bool × Bool) :=
+  [("server-arc", false, true), ("server-arena", true, true),
+   ("server-arc-xpath", false, false), ("server-arena-xpath", true, false)]
+
+def multiKinds : List (String × Bool × Bool) :=
+  [("multi-arc", false, false), ("multi-arena", true, false),
+   ("server-multi-arc", false, true), ("server-multi-arena", true, true)]
+
+def parseB : String → Option Bool
+  | "0" => some false
+  | "1" => some true
   | _ => none
 
-def stepMulti (s : M.State) (w : List String) : Option M.State :=
+/-- `some (state, panicked)`; `dispatch`/`dispatchl` through a disposed arena handle panic -/
+def stepSingle (arena : Bool) (s : State) (w : List String) : Option (State × Bool) :=
+  let ok (s : State) : Option (State × Bool) := some (s, false)
+  match w with
+  | ["dispatch", i] => i.toNat?.map fun i => (step s (.dispatch i), s.disposed)
+  -- `dispatch_local`: the same body with `Executor::spawn_local`
+  | ["dispatchl", i] => i.toNat?.map fun i => (step s (.dispatch i), s.disposed)
+  | ["abort", k] => k.toNat?.bind fun k => ok (step s (.abort k))
+  | ["drop", k] => k.toNat?.bind fun k => ok (step s (.dropHandle k))
+  | ["ready", k, v] =>
+    match k.toNat?, v.toNat? with
+    | some k, some v => ok (step s (.ready k v))
+    | _, _ => none
+  | ["poll", j] => j.toNat?.bind fun j => ok (step s (.poll j))
+  | ["idle"] => ok (runIdle (s.tasks.length + 1) s)
+  | ["clear"] => ok (step s .clear)
+  | ["suppress", b] => (parseB b).bind fun b => ok (step s (.suppress b))
+  -- explicit `Dispose::dispose` of the handle: arena kinds only
+  | ["dispose"] => if arena then ok (step s .dispose) else none
+  -- clean-up of the owner the action was created under: disposes an arena handle, does nothing to an `Arc` action
+  | ["cleanup"] => if arena then ok (step s .dispose) else ok s
+  | ["obs"] => ok s
+  | _ => none
+
+def stepMulti (arena : Bool) (s : M.State) (w : List String) : Option M.State :=
   match w with
   | ["dispatch", i] => i.toNat?.map fun i => M.step s (.dispatch i)
   | ["dsync", v] => v.toNat?.map fun v => M.step s (.dispatchSync v)
@@ -60,33 +92,53 @@ def stepMulti (s : M.State) (w : List String) : Option M.State :=
     | _, _ => none
   | ["poll", j] => j.toNat?.map fun j => M.step s (.poll j)
   | ["idle"] => some (M.runIdle (s.tasks.length + 1) s)
+  | ["suppress", b] => (parseB b).map fun b => M.step s (.suppress b)
+  | ["dispose"] => if arena then some (M.step s .dispose) else none
+  | ["cleanup"] => if arena then some (M.step s .dispose) else some s
   | ["obs"] => some s
   | _ => none
+
+def kindLine (d : D) (k : String) (v0 : Option Nat) : Option (D × String) :=
+  let echo := match v0 with | some v => s!"kind {k} {v}" | none => s!"kind {k}"
+  if d.started then none
+  else match singleKinds.lookup k with
+  | some arena => some ({ mode := .single (init v0), started := true, arena := arena }, echo)
+  | none =>
+    match serverKinds.lookup k with
+    | some (arena, samePath) =>
+      -- the initial value of a server action can only be an error (≥ 1000)
+      if (v0.getD 1000) < 1000 then none
+      else some ({ mode := .single (init (if samePath then v0 else none)), started := true, arena := arena, server := true }, echo)
+    | none =>
+      match multiKinds.lookup k, v0 with
+      | some (arena, server), none => some ({ mode := .multi M.init, started := true, arena := arena, server := server }, echo)
+      | _, _ => none
 
 def stepLine (d : D) (line : String) : D × String :=
   match words line with
   | ["case", n] => ({}, s!"case {n}")
   | ["kind", k] =>
-    if d.started then (d, "bad-op")
-    else if singleKinds.contains k then ({ mode := .single (init none), started := true }, s!"kind {k}")
-    else if k == "multi-arc" || k == "multi-arena" then ({ mode := .multi M.init, started := true }, s!"kind {k}")
-    else (d, "bad-op")
+    match kindLine d k none with
+    | some r => r
+    | none => (d, "bad-op")
   | ["kind", k, v0] =>
     match v0.toNat? with
     | some v0 =>
-      if !d.started && singleKinds.contains k then
-        ({ mode := .single (init (some v0)), started := true }, s!"kind {k} {v0}")
-      else (d, "bad-op")
+      match kindLine d k (some v0) with
+      | some r => r
+      | none => (d, "bad-op")
     | none => (d, "bad-op")
   | w =>
     match d.mode with
     | .single s =>
-      match stepSingle s w with
-      | some s' => ({ mode := .single s', started := true }, obsSingle s')
+      match stepSingle d.arena s w with
+      | some (s', panicked) =>
+        ({ d with mode := .single s', started := true },
+         (if panicked then "panic-disposed " else "") ++ obsSingle d.server s')
       | none => (d, "bad-op")
     | .multi s =>
-      match stepMulti s w with
-      | some s' => ({ mode := .multi s', started := true }, obsMulti s')
+      match stepMulti d.arena s w with
+      | some s' => ({ d with mode := .multi s', started := true }, obsMulti d.server s')
       | none => (d, "bad-op")
 
 def main : IO Unit := runDriver stepLine {}
